@@ -188,12 +188,20 @@ func c17Invariant(w *world.World, ctx sdk.Context) []mc.Viol {
 		var f storagetypes.UnifiedFile
 		_ = cdc.Unmarshal(v, &f)
 		seen := map[string]bool{}
+		seenAcct := map[string]string{}
 		for _, pk := range f.Proofs {
 			if seen[pk] {
 				vs = append(vs, viol("prover-list-has-no-duplicates", "duplicate", "file %s lists %s twice", id, pk))
 			}
 			seen[pk] = true
 			prover := strings.Split(pk, "/")[0]
+			// a prover is an account: the same account under two spellings of its address holds two of the file's seats
+			if acc, err := sdk.AccAddressFromBech32(prover); err == nil {
+				if other, dup := seenAcct[acc.String()]; dup && other != pk {
+					vs = append(vs, viol("prover-list-has-no-duplicates", "same-account-under-two-spellings", "file %s lists the account %s twice: %q and %q", id, w.NameOf(acc.String()), strings.Split(other, "/")[0], prover))
+				}
+				seenAcct[acc.String()] = pk
+			}
 			rec, found := k.GetProofWithBuiltKey(ctx, []byte(pk))
 			if !found {
 				vs = append(vs, viol("listed-prover-has-a-proof-record", "missing-record", "file %s lists %s but no proof record exists", id, pk))
